@@ -156,9 +156,20 @@ class ExprTupleKey:
             return False
         else:
             # Comparing form compiler data
-            mds = canonicalize_metadata(self.x[1])
-            mdo = canonicalize_metadata(other.x[1])
+            mds = _metadata_sort_key(canonicalize_metadata(self.x[1]))
+            mdo = _metadata_sort_key(canonicalize_metadata(other.x[1]))
             return mds < mdo
+
+
+def _metadata_sort_key(md):
+    """Make canonicalized metadata totally ordered.
+
+    Canonical metadata consist of strings and (nested) tuples, which cannot be
+    compared with each other: tag every entry with its kind (strings first).
+    """
+    if isinstance(md, tuple):
+        return (1, tuple(_metadata_sort_key(i) for i in md))
+    return (0, md)
 
 
 def group_integrals_by_domain_and_type(integrals, domains):
